@@ -11,7 +11,8 @@
      n_l1      [msg]    -> tx hash               (L1HandlerTxnHashByMsgHash)
      n_upd     [n]      -> the block's state update (here: the whole block description)
      n_commit  [n]      -> block commitments
-     n_casm    [h]      -> (declared at, migrated at or 0)   (ClassCasmHashMetadata)
+     n_casm    [h]      -> ClassCasmHashMetadata (declared at, migrated at or 0, V1 hash if any, V2 hash):
+                           the machine of C03.Model (casm_store / casm_revert / casm_read / casm_head)
      n_filter  running event filter, abstractly the (block, bloom) pairs it currently covers
    No proofs here. *)
 From Coq Require Import List NArith Bool.
@@ -25,9 +26,11 @@ Record block := mkBlock {
   b_txs    : list (N * option N);   (* tx hash, L1 message hash of L1-handler transactions *)
   b_commit : N;
   b_bloom  : N;
-  b_casm   : list (N * N);          (* DeclaredV1Classes: Sierra class hash -> casm hash *)
-  b_migr   : list N                 (* MigratedClasses *)
+  b_v2     : bool;                  (* protocol version >= 0.14.1 *)
+  b_casm   : list (N * (N * N));    (* DeclaredV1Classes: Sierra class hash -> (casm hash, Blake2s hash of the CASM) *)
+  b_migr   : list (N * N)           (* MigratedClasses: Sierra class hash -> new casm hash *)
 }.
+Definition cblk_of (b : block) : cblk := mkCblk (b_v2 b) (b_casm b) (b_migr b).
 
 Record node := mkNode {
   n_st     : st;
@@ -38,7 +41,7 @@ Record node := mkNode {
   n_l1     : smap N;
   n_upd    : smap block;
   n_commit : smap N;
-  n_casm   : smap (N * N);
+  n_casm   : smap meta;
   n_filter : list (N * N)
 }.
 
@@ -54,8 +57,6 @@ Fixpoint put_txidx (n i : N) (l : list (N * option N)) (m : smap (N * N)) : smap
 (* L1-handler transactions of a block as (message hash, tx hash) *)
 Definition l1s (l : list (N * option N)) : list (N * N) :=
   flat_map (fun e => match snd e with Some msg => [(msg, fst e)] | None => [] end) l.
-
-Definition casm_at (m : smap (N * N)) (h : N) : N := match get m [h] with Some (a, _) => a | None => 0 end.
 
 Section Backend.
   Variable store_st : st -> diff -> st.
@@ -73,8 +74,7 @@ Section Backend.
       (put [n] b (n_upd x))
       (put [n] (b_commit b) (n_commit x))
       (* storeCasmHashMetadata: declared classes, then Migrate(n) on metadata read through the reader *)
-      (foldd (fun h m => put [h] (casm_at (n_casm x) h, n) m) (b_migr b)
-         (foldd (fun e m => put [fst e] (n, 0) m) (b_casm b) (n_casm x)))
+      (casm_store n (cblk_of b) (n_casm x))
       ((n, b_bloom b) :: n_filter x).
 
   (* RevertHead: read height, state update and header; State.Revert; deleteBlockContent; filter OnReorg *)
@@ -96,8 +96,7 @@ Section Backend.
               (del [n] (n_upd x))
               (del [n] (n_commit x))
               (* revertCasmHashMetadata: delete declared, Unmigrate the migrated ones *)
-              (foldd (fun h m => put [h] (casm_at (n_casm x) h, 0) m) (b_migr b)
-                 (foldd (fun e m => del [fst e] m) (b_casm b) (n_casm x)))
+              (casm_revert (cblk_of b) (n_casm x))
               (tl (n_filter x)))
         end
     | _, _ => None
@@ -124,10 +123,7 @@ Definition valid_next (x : node) (b : block) : bool :=
   forallb (fun e => freshk (n_txidx x) [fst e]) (b_txs b) &&
   nodupk (map (fun e => [fst e]) (l1s (b_txs b))) &&
   forallb (fun e => freshk (n_l1 x) [fst e]) (l1s (b_txs b)) &&
-  nodupk (map (fun e => [fst e]) (b_casm b)) &&
-  forallb (fun e => freshk (n_casm x) [fst e]) (b_casm b) &&
-  nodupk (map (fun h => [h]) (b_migr b)) &&
-  forallb (fun h => match get (n_casm x) [h] with Some (_, m) => m =? 0 | None => false end) (b_migr b).
+  cvalid (n_casm x) (cblk_of b).
 
 (* the condition under which the legacy RevertHead failed BEFORE juno commit 1b89e86; no theorem needs it
    any more, the oracle still prints it as a diagnostic *)
